@@ -20,7 +20,7 @@ RULE = ("(a) random strings over a weighted alphabet (Jaqal tokens and character
         "process-global fingerprint after every call; (e) relative pulse imports against a scratch module in a fresh interpreter. "
         "non-trivial = text has >= 3 tokens or an illegal character; distinct = (text, entry point)")
 ASSUMPTIONS = ["termination restated as a step budget of 2e5 + 2e3*len(text) line events inside jaqalpaq modules per call",
-               "texts declaring registers larger than 6 qubits are parsed but not executed (resource use, not termination)",
+               "texts declaring registers larger than 6 qubits, or whose loops unroll to more than 20000 statement executions, are parsed but not executed (resource use proportional to the program, not termination)",
                "ImportError is accepted only when the program names a pulse module and pulses are auto-loaded"]
 TIERS = {"quick": {"shards": 8, "budget_s": 55}, "thorough": {"shards": 16, "budget_s": 480}}
 REQUIRE = {"calls": 20000, "class:random": 1000, "class:truncation": 2000, "class:mutant": 2000, "class:template": 200,
@@ -167,6 +167,15 @@ def call(entry, text, flags=None, budget=None):
             if regs and size is not None and size > 6:
                 state["skipped_run"] = True
                 return c
+            bound = unrolled_bound(c)
+            try:
+                bound = max(bound, unrolled_bound(lib.expand_macros(lib.fill_in_let(lib.expand_subcircuits(c)))))
+            except Exception:
+                pass  # the run below raises the same error
+            if bound > 20000:
+                # emulating 10^20 loop iterations is resource use proportional to the program, not a hang
+                state["skipped_run"] = True
+                return c
             import numpy
 
             numpy.random.seed(7)
@@ -195,6 +204,34 @@ def call(entry, text, flags=None, budget=None):
     info["where"] = ["%s:%d:%s" % (f.filename.split("/")[-1], f.lineno, f.name) for f in frames[-4:]]
     info["stack_depth"] = len(frames)
     return ("other:" + type(ex).__name__, None, str(ex)[:200]), info
+
+
+def unrolled_bound(c):
+    """Upper bound of the number of statement executions of the unrolled program (loop counts
+    multiplied along the nesting, macro calls followed)."""
+    from jaqalpaq.core import BlockStatement, LoopStatement, GateStatement, Macro
+
+    def n(s, depth=0):
+        if depth > 60:
+            return 1
+        if isinstance(s, LoopStatement):
+            it = s.iterations
+            it = getattr(it, "value", it)
+            try:
+                it = max(int(it), 0)
+            except Exception:
+                it = 1
+            return 1 + it * n(s.statements, depth + 1)
+        if isinstance(s, BlockStatement):
+            return 1 + sum(n(x, depth + 1) for x in s.statements)
+        if isinstance(s, GateStatement) and isinstance(s.gate_def, Macro):
+            return 1 + n(s.gate_def.body, depth + 1)
+        return 1
+
+    try:
+        return n(c.body)
+    except RecursionError:
+        return 1
 
 
 def first_illegal(text):
@@ -455,6 +492,7 @@ def relative_import_probe(ctx):
             rec.violation(sig("C16", "sticky-state:relative-import-depends-on-earlier-imports"), {"fresh": a, "preloaded": b},
                           {"kind": "import", "text": text})
         minimal_import_probe(rec, d, text)
+        fs_history_probe(rec, d, text)
         # history: absolute import of the same name before and after a relative import of it
         abs_text = "from vfscratchmod usepulses *\nregister q[1]\nprepare_all\nFoo q[0]\nmeasure_all\n"
         p = subprocess.run([sys.executable, "-c", child], input=json.dumps({"steps": [(abs_text, "parse", {}), (text, "parse", {}),
@@ -495,6 +533,56 @@ except Exception as ex:
     out = ["other:" + type(ex).__name__, str(ex)[:200]]
 json.dump({"outcome": out, "importlib_util_preloaded": pre}, sys.stdout)
 '''
+
+
+FS_HISTORY_CHILD = r'''
+import sys, json, os
+spec = json.load(sys.stdin)
+from jaqalpaq.parser import parse_jaqal_string
+from jaqalpaq.error import JaqalError
+d, text, mod_a, mod_b = spec["path"], spec["text"], spec["mod_a"], spec["mod_b"]
+path = os.path.join(d, "vfscratchmod.py")
+def attempt():
+    try:
+        c = parse_jaqal_string(text, autoload_pulses=True, import_path=d)
+        return ["ok", sorted(c.native_gates)]
+    except JaqalError as ex:
+        return ["JaqalError", str(ex)[:120]]
+    except ImportError as ex:
+        return ["ImportError", str(ex)[:120]]
+    except Exception as ex:
+        return ["other:" + type(ex).__name__, str(ex)[:120]]
+out = {}
+open(path, "w").write(mod_a); out["module A present"] = attempt()
+os.remove(path); out["module removed"] = attempt()
+open(path, "w").write(mod_b); out["module B (no gate Foo) present"] = attempt()
+open(path, "w").write(mod_a); out["module A again"] = attempt()
+json.dump(out, sys.stdout)
+'''
+
+
+def fs_history_probe(rec, d, text):
+    """The module named by a relative pulse import is removed / replaced between calls: the
+    outcome must follow the file system (ImportError when it is gone), never an earlier load."""
+    env = dict(os.environ)
+    env["PYTHONPATH"] = os.path.join(harness.REPO, "src")
+    mod_b = SCRATCH_MOD.replace('"Foo"', '"Bar"')
+    p = subprocess.run([sys.executable, "-c", FS_HISTORY_CHILD],
+                       input=json.dumps({"text": text, "path": d, "mod_a": SCRATCH_MOD, "mod_b": mod_b}),
+                       capture_output=True, text=True, timeout=120, env=env)
+    if p.returncode != 0:
+        rec.inconc("file-system history child failed: " + p.stderr[-400:])
+        return
+    r = json.loads(p.stdout)
+    rec.count("relative-import-probes")
+    rec.note("relative_import_file_system_history", r)
+    case = {"kind": "import", "text": text}
+    if r["module A present"][0] != "ok" or r["module A again"][0] != "ok":
+        rec.violation(sig("C16", "relative-pulse-import-of-existing-module-failed"), r, case)
+    if r["module removed"][0] != "ImportError":
+        rec.violation(sig("C16", "missing-pulse-module-not-reported:" + r["module removed"][0]), r, case)
+    if r["module B (no gate Foo) present"][0] != "JaqalError":
+        rec.violation(sig("C16", "replaced-pulse-module-not-reloaded:" + r["module B (no gate Foo) present"][0]), r, case)
 
 
 def minimal_import_probe(rec, d, text):
